@@ -1,0 +1,20 @@
+// +build verif
+
+package bitmap
+
+// VerifSetReclaimThreshold sets the TailBitmap reclaim threshold (in bits) and
+// returns the previous value. Verification hook: lets short Set/Compact
+// histories cross the reclamation branch of Compact.
+func VerifSetReclaimThreshold(bits int64) int64 {
+	old := reclaimThreshold
+	reclaimThreshold = bits
+	return old
+}
+
+// VerifSelect8Lookup returns a copy of the select lookup table, so that a
+// check can compare it before and after concurrent queries.
+func VerifSelect8Lookup() []uint8 {
+	r := make([]uint8, len(select8Lookup))
+	copy(r, select8Lookup[:])
+	return r
+}
